@@ -228,6 +228,7 @@ PROPS = {
     },
     "C02": {
         "module": "ZenonVerif.Props.C02",
+        "extra_modules": ["ZenonVerif.Props.C02Node"],
         "streams": [S("sync", 12, 200, timeout=7200), S("sync-batches", 300, 6000, timeout=3000)],
         "rule": "sync stream: one evaluation = one line: a momentum's redo patch replayed into the Lean manager model, or the "
                 "frontier digest of one follower under one delivery schedule (one-by-one / random batches up to 40 / account "
@@ -243,10 +244,31 @@ PROPS = {
                 "refused batches, rollbacks and chain switches (also across an election tick and an EPOCH end — the stream runs on "
                 "epochs of ten minutes and the switching branch leaves a slot empty) compared with a fresh node that only received their "
                 "final chain: ledger state byte for byte, historical views, pool, list queries, consensus statistics of both epochs, "
-                "pillar weights, delegations, elected producer of every slot",
-        "partial": "that the Go VM is a function of exactly the inputs the model names is established by the multi-node "
-                   "correspondence and the nondeterminism-site fact, not by a theorem; map-iteration order inside methods is only sampled",
-        "assumptions": ["SHA3 collision freedom (ChangesHash pins the patch)"],
+                "pillar weights, delegations, elected producer of every slot; "
+                "node-level model (Props/C02Node.lean over Model/NodeSync.lean: pool of executed blocks, gossip under the priority "
+                "rule, delivery with pooled-patch reuse / execution in the stated context / forced insertion, changes-hash "
+                "comparison, restart): every follower of every sync history also writes an abstract trace (ns-* lines: each gossiped "
+                "block with account, position, previous, acknowledged momentum and plasma fields and the real verdict; each delivered "
+                "batch and the real return value; restarts; the identifiers in the real unconfirmed pool after every gossip and "
+                "delivery; the outcome of higherPriority for every producer-block/rival pair; equality of the followers' final "
+                "ledgers) and the driver replays it on the model with exec instantiated by an uninterpreted tagging of (ledger as "
+                "of the acknowledged momentum, account chain up to the stated previous, block): every verdict, pool content and "
+                "ledger equality is recomputed; in the rival schedule the rival meets an empty pool, or the producer's block (and "
+                "sometimes the next block of that account) already pooled, or is pooled first and challenged by the producer's "
+                "block, so that gossip verdicts are decided by the priority rule and winning challengers displace descendants; "
+                "AST facts pinned by theorems: newBlockContext takes the momentum store of block.MomentumAcknowledged and the "
+                "account store at block.Previous(), InsertChain skips blocks whose patch is pooled and FORCE-adds the others (no "
+                "other pool insertion reachable), AddAccountBlocks adds without force, the force flag only switches the priority "
+                "test off, applyMomentum takes the pooled patches, changesHash recomputes and compares",
+        "partial": "that the Go VM is a function of exactly the inputs the model names (exec is a PARAMETER of the node-level model: "
+                   "ledger as of the acknowledged momentum, account chain up to the stated previous, block) is established by the "
+                   "multi-node correspondence, the context AST fact and the nondeterminism-site fact, not by a theorem; GIVEN such an "
+                   "exec, independence of the ledger from the delivery schedule (gossip of arbitrary blocks, batching, refused "
+                   "deliveries, restarts) and acceptance of every honest momentum whatever the pool holds are theorems "
+                   "(ledger_schedule_independent, honest_momentum_accepted; rollback/side chains are C06/C16 and outside the "
+                   "node-level model); map-iteration order inside methods is only sampled",
+        "assumptions": ["SHA3 collision freedom (ChangesHash pins the patch; no two different blocks with the same identifier "
+                        "among the blocks a node meets: hypothesis NoCollision of the node-level theorems)"],
     },
     "C17": {
         "module": "ZenonVerif.Props.C17",
